@@ -24,7 +24,7 @@ func init() {
 			r.Cov["traces_validated_against_impl"] = m.Counts["codec_calls"]
 			r.Cov["evaluations"] = m.Counts["cases"]
 			r.Cov["distinct_nontrivial"] = len(m.Outc)
-			r.Cov["rule"] = "every control value of the alphabet, singly and in ordered pairs: request direction = raw-BER control list on a Bind/Search/Modify/Add/Delete envelope decoded by the real readRequest; response direction = gldap value set on Bind and SearchDone responses, written by the real ResponseWriter, parsed by the strict parser and by go-ldap's DecodeControl; plus the Behera constructor table. distinct_nontrivial = distinct (direction, envelope, kinds, outcome) classes"
+			r.Cov["rule"] = "every control value of the alphabet, singly and in ordered pairs (thorough: field values at every power of two of their width with both neighbours, cookie lengths around the BER length-form boundaries, ordered triples): request direction = raw-BER control list on a Bind/Search/Modify/Add/Delete envelope decoded by the real readRequest; response direction = gldap value set on Bind and SearchDone responses, written by the real ResponseWriter, parsed by the strict parser and by go-ldap's DecodeControl; plus the Behera constructor table. distinct_nontrivial = distinct (direction, envelope, kinds, outcome) classes"
 			r.Cov["samples"] = m.Samp
 			r.Cov["per_family"] = m.Counts
 			r.Cov["outcomes"] = m.Outc
@@ -296,7 +296,7 @@ func c14behera(c *Ctx, set [3]bool, vals [3]uint) {
 func c14run(c *Ctx) {
 	level := 1
 	if c.Thorough() {
-		level = 2
+		level = 3
 	}
 	all := controlAlpha(level)
 	pairBase := controlAlpha(1)
@@ -328,6 +328,26 @@ func c14run(c *Ctx) {
 			for _, b := range pairBase {
 				if c.Mine() {
 					c14request(c, env, []codec.Control{a, b})
+				}
+			}
+		}
+	}
+	if c.Thorough() {
+		// ordered triples over one value per kind plus the value-less forms
+		tri := controlAlpha(0)
+		for _, x := range controlAlpha(1) {
+			if x.NoValue {
+				tri = append(tri, x)
+			}
+		}
+		for _, env := range envs {
+			for _, a := range tri {
+				for _, b := range tri {
+					for _, d := range tri {
+						if c.Mine() {
+							c14request(c, env, []codec.Control{a, b, d})
+						}
+					}
 				}
 			}
 		}
